@@ -657,7 +657,7 @@ func (e *Exec) enterLoopHeader(fr *Frame, st State, b *ssa.BasicBlock, prev *ssa
 		st = e.havocAbove(st, "loop")
 		if lc.HasGhost {
 			st = e.havocGhostKinds(st, lc.GhostKinds)
-		} else {
+		} else if rc := e.ctFor(fr); rc != nil && rc.ModGhost {
 			st = e.havocGhost(st)
 		}
 		hv := map[*ssa.Phi]Val{}
